@@ -98,6 +98,8 @@ structure MSt where
   m12s : M12s := {}
   m13 : M13 := {}
   m17 : M17 := {}
+  orc : Option PState := none      -- the model in lockstep on the real events; dropped after the first disagreement
+  osteps : Nat := 0
   -- statistics for the evidence file
   frames : Nat := 0
   motion : Nat := 0
@@ -109,7 +111,23 @@ structure MSt where
   faults : Nat := 0
   capStops : Nat := 0
 
-def monInit (f : List String) : MSt := { cfg := cfgOf f }
+def monInit (f : List String) : MSt := let c := cfgOf f; { cfg := c, orc := some (PState.init c) }
+
+/-- the first event on which the real processor's calls differ from the model's, named after what differs (this also
+judges the regimes the trace monitors leave alone, e.g. recording lengths when a storage write has failed) -/
+def lockstepVerdict (exp got : List Obs) : List String :=
+  if exp == got then [] else
+  let onSink (s : Sink) (l : List Obs) := l.filter fun o => match o with | .call s' _ _ => s' == s | _ => false
+  let stops (l : List Obs) := (onSink .motion l).filter fun o => match o with | .call _ .stop _ => true | _ => false
+  let starts (l : List Obs) := (onSink .motion l).filter fun o => match o with | .call _ .start _ => true | .call _ .can _ => true | _ => false
+  let writes (l : List Obs) := (onSink .motion l).filter fun o => match o with | .call _ (.write _) _ => true | _ => false
+  if got.contains .panic then ["C12:frame-processing-panicked"]
+  else if onSink .const exp != onSink .const got || onSink .test exp != onSink .test got then
+    ["C17:continuous-or-test-recorder-calls-differ-from-the-model", "C12:recorder-calls-differ-from-the-model-after-a-fault"]
+  else if starts exp != starts got then ["C04:recording-start-decision-differs-from-the-model"]
+  else if stops exp != stops got then ["C03:recording-ends-at-a-different-frame-than-the-model", "C12:recording-not-ended-as-the-model-after-a-fault"]
+  else if writes exp != writes got then ["C01:frames-written-differ-from-the-model", "C02:frames-written-differ-from-the-model"]
+  else ["C12:observations-differ-from-the-model"]
 
 def newFails (old new : List String) : List String := new.drop old.length
 
@@ -149,7 +167,13 @@ def monStep (m : MSt) (bl : Block) : MSt × List String :=
            ["C15:detector-not-restarted-on-camera-reset-background-not-re-seeded", "C09:detector-not-restarted-on-camera-reset",
             "C14:camera-reset-marker-did-not-restart-detection"]
        | _ => [])
-    let fails := fq ++ newFails m.m12.fails m12.fails ++ newFails m.m3.fails m3.fails ++ newFails m.m4.fails m4.fails
+    let (orc, fo) : Option PState × List String := match m.orc with
+      | none => (none, [])
+      | some s =>
+        let r := PState.step c s ev
+        let v := lockstepVerdict r.2 obs
+        (if v.isEmpty then some (if (m.osteps + 1) % 64 == 0 then compact r.1 else r.1) else none, v)
+    let fails := fo ++ fq ++ newFails m.m12.fails m12.fails ++ newFails m.m3.fails m3.fails ++ newFails m.m4.fails m4.fails
       ++ newFails m.m12s.fails m12s.fails ++ newFails m.m13.fails m13.fails ++ newFails m.m17.fails m17.fails
       ++ retF ++ (if unparsed.isEmpty then [] else ["C12:unparsed-output"])
     let anyFault := obs.any fun o => match o with | .call _ _ false => true | _ => false
@@ -161,7 +185,7 @@ def monStep (m : MSt) (bl : Block) : MSt × List String :=
     let isReset := match ev with | .reset _ => true | _ => false
     let isReq := match ev with | .testReq => true | _ => false
     let refusedNow := ev.isFrame && ev.motion && !hasStartOk obs && !m.m4.openRec && decide (m4.run ≥ c.trig)
-    let m1 : MSt := { m with m12 := m12, m3 := m3, m4 := m4, m12s := m12s, m13 := m13, m17 := m17 }
+    let m1 : MSt := { m with m12 := m12, m3 := m3, m4 := m4, m12s := m12s, m13 := m13, m17 := m17, orc := orc, osteps := m.osteps + 1 }
     let m' : MSt := { m1 with
       frames := m.frames + one ev.isFrame
       motion := m.motion + one ev.motion
